@@ -36,6 +36,30 @@ E2 twin check, exhaustive inside stated bounds.
      lengths exact fit / exact fit with terminator / shorter, for arrays of char, signed char, unsigned char,
      char16_t, char32_t, wchar_t of bound 4, 6 and unknown bound (thorough: 2, 3, 5 too), plain, braced, designated, as
      members, as rows of 2-D arrays, in unions, as flexible array member.  Every element up to sizeof is dumped.
+ * Families added by the third pass:
+   - bytes: byte VALUE SEQUENCES in arrays of char / signed char / unsigned char / _Bool: EVERY pair (b1, b2) of
+     M.BYTES1 x M.BYTES2 (b1: 0 1 7 8 9 10 13 27 31 32 34 39 63 64 92 127 128 255 - what an emitter of the static image
+     may write as an escape sequence; b2: '0' '7' '8' '9' 'a' 'f' 'A' 'x' '"' backslash newline 0 1 255 - what could
+     continue or end such an escape) as ADJACENT elements [letter, b1, b2, letter], given as one string literal with
+     three-digit octal escapes, as adjacent string literals split after b1 with the shortest octal and the shortest
+     hexadecimal escape ("v(bs)1" "23": phase 5 before phase 6), as a brace list of integer constants and (members) as
+     brace-elided integer constants; arrays of unknown bound (a literal adds its terminator), of bound 4 (exact fit)
+     and 6 (zero padded), as struct members with a member behind them, (thorough) as rows, union member, flexible array
+     member, nested and packed struct member; _Bool arrays: brace lists over {0,1,2,255} x {0,1,'0',255}.  Static and
+     automatic, every element dumped.  Failing cases carry the classes of b1 and b2 in their signature.
+   - struct-expr: initializers that are EXPRESSIONS of struct/union type (6.7.9p13): a type I nested as first and as
+     later member 1, 2 and 3 struct levels deep, in arrays, in array members, through unions (expression of the inner
+     struct, of every intermediate struct, of a union type); every spelling inside the bounds that contains at least
+     one such expression - positional, designated, at EVERY brace-elision level, several per list, mixed with scalars.
+     The expression is a variable y<n> of exactly the member's type (all struct types get tags), zeroed bytewise and
+     set up by assignments.  Automatic storage only (no constant expression has struct type).  Initializers for a part
+     of a subobject that such an expression initialized are not judged (6.7.9p19 footnote / DR 413; gcc drops the
+     expression's value), except a designator that changes the member of a union so initialized (the later initializer
+     applies whatever becomes of the rest).
+   - union-bitfield: unions whose first or designated member is a bit-field (static image: written through the union
+     path), alone, in structs, in arrays, with every arithmetic constant on the bit-field.  Only the VALUE of the
+     bit-field is judged: the other bits of its storage unit are unspecified (6.2.6.1p7; gcc leaves stack bytes there
+     in automatic objects), so chibicc writing the unmasked value into the static image is not a deviation.
  * For every type: EVERY initializer spelling the 6.7.9 grammar allows with <= A expression/string atoms, <= D designated
    items (paths up to 3 designators, GNU ranges), positional continuation after every designator, every brace-elision
    level, braced and string forms, overriding, short lists, trailing commas, braces around scalars.  Constraint
@@ -60,7 +84,7 @@ from vlib import core, twin
 from models import c05_init as M
 
 LEVEL = "exploration"
-BUDGET = {"quick": 900, "thorough": 3000}
+BUDGET = {"quick": 2400, "thorough": 7200}      # quick: 35-40 s on an idle machine; the deadline only matters on an overloaded one (load 900+: 20 min)
 
 BATCH = 400
 
@@ -368,7 +392,73 @@ def packed_ptr_offsets(t, base=0, acc=None):
     return acc
 
 
-FAMILIES = ("base", "packed", "alignas", "unnamed-bitfield", "wide-bitfield", "addr", "float", "string")
+def shapes_bytes(tier):
+    """Byte family: arrays of the three character types and _Bool, of unknown bound (a string literal adds the
+    terminator), bound 4 (exact fit) and 6 (zero padded), as struct members with a member behind them (what spills over
+    the array shows there), as union member, as rows, as flexible array member."""
+    q = tier == "quick"
+    BO = ('sc', 'bool')
+    out = [cha(k, None) for k in ('char', 'schar', 'uchar')] + [cha('char', 6), cha('uchar', 4), arr(BO, None), arr(BO, 3),
+           st(IN, cha('char', 4), CH), st(cha('schar', 6), IN), st(CH, arr(BO, 2), CH)]
+    if not q:
+        out += [cha('schar', 4), cha('char', 4), cha('uchar', 6), cha('schar', 6), cha('char', 2), cha('uchar', 3),
+                st(IN, cha('uchar', 4), CH), st(cha('char', 6), IN), arr(cha('char', 4), 2), arr(cha('uchar', 6), None),
+                un(cha('uchar', 4), IN), st(IN, cha('char', None)), st(st(cha('schar', 4), CH), IN), pk(CH, cha('char', 5), SH)]
+    return out
+
+
+def I_(a, b, ka='int', kb='int'):
+    return ('st', ((a, ('sc', ka)), (b, ('sc', kb))))
+
+
+def shapes_struct_expr(tier):
+    """Struct-expression family: a struct/union type I (two ints; char + long; bit-fields; an array member; a union)
+    nested as FIRST and as LATER member 1, 2 and 3 struct levels deep, in arrays, in arrays inside structs, through
+    unions - so that an expression of type I (or of an intermediate type) meets every brace-elision depth."""
+    q = tier == "quick"
+    N = lambda name, t: (name, t)
+    S = lambda *ms: ('st', tuple(ms))
+    U = lambda *ms: ('un', tuple(ms))
+    i_, c_, l_ = ('sc', 'int'), ('sc', 'char'), ('sc', 'long')
+    I = I_('a', 'b')
+    J = S(N('i', I), N('e', i_))                         # I one level down
+    K = S(N('j', J), N('f', i_))                         # I two levels down
+    out = [S(N('i', I), N('c', i_), N('d', i_)),         # depth 1: struct W w = { yI, 5, 6 }
+           S(N('j', J), N('c', i_)),                     # depth 2: { yI, 7, 8 } / { yJ, 8 }
+           S(N('k', K), N('c', i_)),                     # depth 3
+           S(N('c', i_), N('j', J)),                     # a later member
+           ('arr', I, 2), ('arr', J, 2), ('arr', S(N('i', I), N('c', i_), N('d', i_)), None),
+           S(N('v', ('arr', I, 2)), N('c', i_)),         # through an array member
+           S(N('u', U(N('i', I), N('l', l_))), N('c', i_)),          # through a union
+           S(N('u', U(N('j', J), N('l', l_))), N('c', i_)),          # union, then struct
+           U(N('j', J), N('l', l_)),
+           S(N('j', S(N('u', U(N('g', c_), N('h', i_))), N('e', i_))), N('c', i_)),   # an expression of UNION type
+           S(N('j', S(N('i', ('st', (('a', ('sc', 'char')), ('b', ('sc', 'long'))))), N('e', c_))), N('c', ('sc', 'short')))]
+    if not q:
+        B = ('st', (('a', ('bf', 'uint', 5)), ('b', ('bf', 'int', 7)), ('g', ('sc', 'uchar'))))
+        A = ('st', (('a', ('arr', ('sc', 'short'), 2)), ('b', ('sc', 'double'))))
+        out += [S(N('j', S(N('i', B), N('e', i_))), N('c', i_)), S(N('j', S(N('i', A), N('e', i_))), N('c', i_)),
+                ('arr', ('arr', I, 2), 2), ('arr', K, None), S(N('c', c_), N('k', K), N('d', l_)),
+                S(N('v', ('arr', J, 2)), N('c', i_)), U(N('k', K), N('l', l_)),
+                S(N('j', S(N('i', I), N('e', ('arr', i_, 2)))), N('c', i_))]
+    return out
+
+
+def shapes_union_bf(tier):
+    """Unions whose FIRST or designated member is a bit-field (static storage: the byte image gets it through the
+    union path, not the struct path), alone, in structs between other members, in arrays."""
+    b = lambda k, w: ('bf', k, w)
+    UC, UI = ('sc', 'uchar'), ('sc', 'uint')
+    out = [un(b('uint', 3), UC), un(b('int', 3), UI), un(UC, b('uchar', 3)), un(b('ulong', 33), UI), un(b('bool', 1), UI),
+           st(CH, un(b('uint', 5), UC), CH), arr(un(b('ushort', 9), UC), 2), un(b('uint', 3), b('int', 12))]
+    if tier != "quick":
+        out += [un(b('long', 40), UC), un(b('ulong', 64), UC), un(b('short', 5), UI), st(un(b('uint', 3), UC), un(b('int', 7), UC)),
+                arr(st(CH, un(b('uchar', 2), UC)), 2), un(st(b('uint', 3), b('uint', 5)), UI)]
+    return out
+
+
+FAMILIES = ("base", "packed", "alignas", "unnamed-bitfield", "wide-bitfield", "addr", "float", "string", "bytes", "struct-expr",
+            "union-bitfield")
 
 
 def universe(tier):
@@ -382,8 +472,9 @@ def universe(tier):
     seen = set()
 
     def add(t, so, b, fam="base", ptrb=(), kinds='p'):
-        if (t, so) not in seen:
-            seen.add((t, so))
+        key = (t, so) if kinds in ('p', 'n', 's') else (t, so, fam)      # the later families enumerate something else for a type
+        if key not in seen:
+            seen.add(key)
             out.append((t, so, b, fam, ptrb, kinds))
     for k in LP:
         # scalars: every address-constant form for the pointers, every arithmetic constant of M.NUM_ATOMS for the others
@@ -427,6 +518,16 @@ def universe(tier):
     for s in shapes_string(tier):
         t = instantiate(s, 0)
         add(t, has_flex(t), BS, "string", XB, 's')
+    # third pass: byte-pair family (own generator), struct-valued expressions (automatic objects only; every spelling
+    # inside the bounds that contains at least one such expression), unions with an initialized bit-field
+    for s in shapes_bytes(tier):
+        t = instantiate(s, 0)
+        add(t, has_flex(t), (), "bytes", (), 'b')
+    for t in shapes_struct_expr(tier):
+        add(t, False, (), "struct-expr", ((3, 0), (2, 1)) if q or is_flex_arr(t) else ((3, 1),) if t[0] == 'arr' else ((4, 0), (3, 1)), 'x')
+    for s in shapes_union_bf(tier):
+        t = instantiate(s, 0)
+        add(t, False, B1 if t[0] == 'un' else B2, "union-bitfield", XB, 'n')
     return out
 
 
@@ -546,6 +647,82 @@ def _num_atoms_for(t):
     return _NAF[t]
 
 
+_XOK = {}
+
+
+def x_ok(t):
+    """Can a variable of struct/union type t be declared on its own (tagged type: no anonymous members, no attributes,
+    no flexible array member) and set up by assignments of integer constants (no pointer leaves)?"""
+    if t not in _XOK:
+        try:
+            M.decl_tagged(t, "", {})
+            M.assign_x({}, t, M.State())
+            _XOK[t] = True
+        except M.Invalid:
+            _XOK[t] = False
+    return _XOK[t]
+
+
+def gen_byte_cases(t):
+    """Byte family: the first character array of t (t itself, a struct member, the first member of a union, the rows of
+    a 2-D array) holds [letter, b1, b2, letter] for EVERY pair (b1, b2) of M.BYTES1 x M.BYTES2 as adjacent elements,
+    given (1) as one string literal with three-digit octal escapes, (2) (3) as adjacent string literals split after b1,
+    with the shortest octal / hexadecimal escapes (`"v\\1" "23"`), (4) as a brace list of integer constants, (5) for
+    members: as brace-elided integer constants.  _Bool arrays: brace lists over {0, 1, 2, 255} x {0, 1, '0', 255}
+    (elements 0/1).  The other members take plain atoms."""
+    def find(t):
+        # -> (wrap function tree -> top-level tree, array type) for the first character array
+        if t[0] == 'arr' and t[1][0] == 'sc':
+            return (lambda a, flat: a), t
+        if t[0] == 'arr':
+            w, at = find(t[1])
+            return (lambda a, flat: ('l', tuple((None, w(a, False)) for _ in range(t[2] or 2)), False)), at
+        if t[0] == 'un':
+            w, at = find(t[1][0][1])
+            return (lambda a, flat: ('l', ((None, w(a, False)),), False)), at
+        def has_arr(x):
+            return x[0] == 'arr' or (x[0] in ('st', 'un') and any(has_arr(mt) for _, mt in x[1]))
+        idx = [i for i, (n, mt) in enumerate(t[1]) if has_arr(mt)][0]
+        w, at = find(t[1][idx][1])
+
+        def wrap(a, flat):
+            items = []
+            for i, (n, mt) in enumerate(t[1]):
+                if i == idx:
+                    sub = w(a, False)
+                    if flat and sub[0] == 'l' and mt[0] == 'arr' and mt[2] is not None:
+                        items += list(sub[1])           # brace elision: the constants directly in the struct's list
+                    else:
+                        items.append((None, sub))
+                elif mt[0] in ('sc', 'bf'):
+                    items.append((None, ('a', 'plain')))
+                else:
+                    break
+            return ('l', tuple(items), False)
+        return wrap, at
+    wrap, at = find(t)
+    key, n = at[1][1], at[2]
+    L = 4 if n is None or n >= 4 else n
+    if key == 'bool':
+        pairs = [(b1, b2) for b1 in (0, 1, 2, 255) for b2 in (0, 1, 48, 255)]
+    else:
+        pairs = [(b1, b2) for b1 in M.BYTES1 for b2 in M.BYTES2]
+    for b1, b2 in pairs:
+        seen = set()
+        if key in M.CHARLIKE:
+            for form in M.BYTE_FORMS:
+                body = M.str_content(0, L, '', ('bp', b1, b2, form))[0]
+                if body in seen:
+                    continue
+                seen.add(body)
+                yield wrap(('s', key, L, False, ('bp', b1, b2, form)), False), False
+        seq = [('iv', b1, 'b1'), ('iv', b2, 'b2')] + [('iv', 109)] * (L - 2) if L < 4 else [('iv', 107), ('iv', b1, 'b1'), ('iv', b2, 'b2')] + [('iv', 109)] * (L - 3)
+        lst = ('l', tuple((None, ('a', st)) for st in seq), False)
+        yield wrap(lst, False), False
+        if t[0] == 'st':
+            yield wrap(lst, True), False
+
+
 def gen_direct(t, b, lim, cross=False):
     """Initializers that initialize a (sub)object of type t as a whole: yields (tree, atoms used, lim left)."""
     k = t[0]
@@ -561,6 +738,8 @@ def gen_direct(t, b, lim, cross=False):
         for tree in ptr_atoms(t, P):
             yield tree, 1, (D, F, R, '')
         return
+    if k in ('st', 'un') and P in ('x', 'X') and x_ok(t):
+        yield ('x', t), 1, (D, F, R, 'X')          # an expression of exactly this struct/union type
     if k == 'arr' and t[1][0] == 'sc' and t[1][1] in M.CHARLIKE:
         for tree, f in string_atoms(t, F > 0):
             yield tree, 1, (D, F - f, R, P)
@@ -599,6 +778,8 @@ def gen_items(root, budget, lim, cross=False):
                 elif t[0] == 'arr' and t[1][0] == 'sc' and t[1][1] in M.CHARLIKE:
                     cands = [(tree, 1, lim2) for tree, f in string_atoms(t, False)] + [
                         (tree, 1, lim2[:3] + ('',)) for tree in string_variants(t, lim2[3], False)]
+                elif t[0] in ('st', 'un') and lim2[3] in ('x', 'X') and x_ok(t):
+                    cands = [(('x', t), 1, lim2[:3] + ('X',))]      # a struct expression reached by brace elision
                 else:
                     cands = []
                 nxt = M.advance(root, p)
@@ -639,9 +820,12 @@ def gen_cases_for(t, bounds, ptrbounds=(), kinds='p'):
             yield tree, False
             if tree[0] == 'l' and used <= 1 and not has_tc(tree):
                 yield tree, True
+    if kinds == 'b':
+        yield from gen_byte_cases(t)
+        return
     for bi, (atoms, dmax) in enumerate(ptrbounds):
         for tree, used, lim in gen_direct(t, atoms, (dmax, 1, 1, kinds), cross=False):
-            if lim[3] or (bi and any(used <= a and dmax - lim[0] <= d for a, d in ptrbounds[:bi])):
+            if (lim[3] and lim[3] != 'X') or (bi and any(used <= a and dmax - lim[0] <= d for a, d in ptrbounds[:bi])):
                 continue
             yield tree, False
 
@@ -654,7 +838,7 @@ def has_tc(tree):
 
 # ---- case -----------------------------------------------------------------------
 class Case:
-    __slots__ = ('ty', 'static_only', 'ini', 'text', 'leaves', 'flags', 'undefined', 'lenleaf', 'tree', 'tc')
+    __slots__ = ('ty', 'static_only', 'ini', 'text', 'leaves', 'flags', 'undefined', 'lenleaf', 'tree', 'tc', 'auto_only', 'xatoms')
 
 
 def make_case(t, static_only, tree, tc):
@@ -668,14 +852,19 @@ def make_case(t, static_only, tree, tc):
     c.flags = stt.flags
     c.undefined = stt.undefined
     c.lenleaf = len(root.kids) if is_flex_arr(t) else None
+    # a struct-valued expression is no constant expression (6.6): such a case has the automatic object only
+    c.xatoms = M.x_atoms(ini)
+    c.auto_only = bool(c.xatoms)
+    if c.auto_only and static_only:
+        raise M.Invalid("struct expression in a static-only case")
     if tc:
         c.flags.add('trailing-comma')
     return c
 
 
 def dump_expr(var, acc, lt):
-    kind = M.SC[lt[1]][0]
     e = var + acc
+    kind = M.SC[lt[1]][0]
     if kind == 'flt':
         # bytewise: the 4 / 8 / 10 significant bytes of the object (long double: two slots, bytes 0..7 and 8..9)
         off, n = {'float': (0, 4), 'double': (0, 8)}.get(lt[1]) or ((0, 8) if lt[2] == 'lo' else (8, 2))
@@ -687,13 +876,27 @@ def dump_expr(var, acc, lt):
     return "(long)%s" % e
 
 
+def case_vars(c):
+    return ("s",) if c.static_only else ("a",) if c.auto_only else ("s", "a")
+
+
 def case_function(i, c):
     """C text of one case (function FN(c<i>))."""
     L = ["void FN(c%d)(long *o) {" % i]
-    L.append("  static %s = %s;" % (M.decl(c.ty, "s"), c.text))
-    if not c.static_only:
-        L.append("  %s = %s;" % (M.decl(c.ty, "a"), c.text))
-    for var in ("s",) if c.static_only else ("s", "a"):
+    if c.auto_only:
+        # struct-valued expressions: every struct/union type gets a tag; the variables y<n> of the member types are
+        # set up by a byte-wise zero fill and member-wise ASSIGNMENTS (no initializer involved)
+        tags = {}
+        L.append("  typedef %s;" % M.decl_tagged(c.ty, "tt_", tags))
+        for x in c.xatoms:
+            L.append("  %s; for (unsigned i_ = 0; i_ < sizeof %s; i_++) ((char *)&%s)[i_] = 0;" % (M.decl_tagged(x['ty'], x['text'], tags), x['text'], x['text']))
+            L.append("  " + " ".join("%s%s = %d;" % (x['text'], acc, v) for acc, lt, v in x['setup']))
+        L.append("  %s = %s;" % (M.decl_tagged(c.ty, "a", tags), c.text))
+    else:
+        L.append("  static %s = %s;" % (M.decl(c.ty, "s"), c.text))
+        if not c.static_only:
+            L.append("  %s = %s;" % (M.decl(c.ty, "a"), c.text))
+    for var in case_vars(c):
         for acc, lt, v in c.leaves:
             L.append("  *o++ = %s;" % dump_expr(var, acc, lt))
         if c.lenleaf is not None:
@@ -740,7 +943,7 @@ def build_driver(cases):
     for i, c in enumerate(cases):
         d.append("void cc_c%d(long *), ref_c%d(long *);" % (i, i))
         e = expected(c)
-        rows.append("{cc_c%d, ref_c%d, %d, %d, %d}" % (i, i, len(e), len(E), 1 if c.static_only else 2))
+        rows.append("{cc_c%d, ref_c%d, %d, %d, %d}" % (i, i, len(e), len(E), len(case_vars(c))))
         E += e
     d.append("/* bytes off .. off+n-1 of a floating object, little endian (n <= 8) */\n"
              "long c05_fb(void *p, int off, int n) { unsigned long v = 0; for (int i = n - 1; i >= 0; i--) v = v << 8 | ((unsigned char *)p)[off + i]; return (long)v; }")
@@ -1045,6 +1248,8 @@ def deviation(c, v):
     where = "static+auto" if ks == [0, 1] else ("static" if ks == [0] else "auto")
     if c.static_only:
         where = "static"
+    if c.auto_only:
+        where = "auto"
     n = len(c.leaves)
     kinds = set()
     for k, j, e, g in v:
@@ -1149,6 +1354,8 @@ def type_reductions(t):
 
 
 def tree_reductions(x):
+    if x[0] == 'x':
+        return
     if x[0] == 'a':
         if x[1] != 'plain':
             yield ('a', 'plain')
@@ -1258,6 +1465,20 @@ def shrink(args):
     return cur, rounds
 
 
+def x_path(t, target, acc=""):
+    """Accessor of the first subobject of type `target` inside t (for descriptions)."""
+    if t == target:
+        return acc
+    if t[0] == 'arr':
+        return x_path(t[1], target, acc + "[0]")
+    if t[0] in ('st', 'un'):
+        for n, mt in t[1]:
+            r = x_path(mt, target, acc + ("." + n if n else ""))
+            if r is not None:
+                return r
+    return None
+
+
 def has_flex(t):
     if t[0] in ('st', 'un') and t[1]:
         last = t[1][-1][1]
@@ -1303,7 +1524,7 @@ def work_types(args):
             if len(summ["case_samples"]) < 2 and len(c.leaves) > 2 and summ["judged"] % 97 == 5:
                 summ["case_samples"].append({"declaration": M.decl(c.ty, "x"), "initializer": c.text, "flags": sorted(c.flags),
                                              "leaves": len(c.leaves), "static_only": c.static_only})
-            summ["leaves"] += len(c.leaves) * (1 if c.static_only else 2)
+            summ["leaves"] += len(c.leaves) * len(case_vars(c))
             if len(c.flags - {'trailing-comma'}) > 0 or len(c.leaves) > 1:
                 summ["nontrivial"].add(hashlib.sha1((repr(c.ty) + c.text).encode()).digest()[:8])
             if i in failed:
@@ -1384,6 +1605,9 @@ exit 0
 def run(ctx):
     import time
     uni = universe(ctx.tier)
+    only = os.environ.get("C05_FAMILIES")        # debugging aid: run some families only (the vacuity guards will object)
+    if only:
+        uni = [u for u in uni if u[3] in only.split(",")]
     pk_off = set()
     for t, so, b, fam, ptrb, kinds in uni:
         if fam == "packed" and not so:
@@ -1407,7 +1631,8 @@ def run(ctx):
             raise core.HarnessError("vacuous: only %d arithmetic constants tell a %s leaf initialised through %s apart" % (len(w), leaf, via))
     # groups of types; deterministic, VERIF_SEED permutes only the order in which groups are scheduled
     groups = core.chunks(uni, 6 if ctx.tier == "quick" else 4)
-    order = list(range(len(groups)))
+    # groups of the third-pass families first (small; a deadline cut on an overloaded machine must not drop them)
+    order = sorted(range(len(groups)), key=lambda g: 0 if groups[g][0][3] in ("bytes", "struct-expr", "union-bitfield") else 1)
     if ctx.seed:
         import random
         random.Random(ctx.seed).shuffle(order)
@@ -1511,6 +1736,9 @@ def run(ctx):
             sig = final_sig(c, dev)
             nclasses += 1
             decl_s = "static %s = %s;" % (M.decl(c.ty, "s"), c.text)
+            if c.auto_only:
+                decl_s = "[automatic] %s = %s; with %s" % (M.decl(c.ty, "s"), c.text, ", ".join(
+                    "%s = a variable of the type of s%s" % (x['text'], x_path(c.ty, x['ty'])) for x in c.xatoms))
             exp = ", ".join("s%s=%d" % (a or "", v) for a, _, v in c.leaves[:8])
             if kind == 'viol':
                 desc = "%s -> %s (C11 6.7.9: %s); %d enumerated cases attributed, e.g. %s = %s" % (
@@ -1556,6 +1784,8 @@ def run(ctx):
               form_counts=flagcount, family_counts=famcount,
               packed_pointer_offsets_mod8=sorted(pk_off), address_constant_forms=sum(len(v) for v in M.PTR_ATOMS.values()),
               arithmetic_constants=len(M.NUM_ATOMS), constants_rounding_differently_through_double=witness,
+              byte_pairs=len(M.BYTES1) * len(M.BYTES2), byte_alphabet_b1=list(M.BYTES1), byte_alphabet_b2=list(M.BYTES2),
+              byte_forms=list(M.BYTE_FORMS) + ['brace list of integer constants', 'brace-elided integer constants (members)'],
               string_variants=list(M.STRVARS), floating_dump="bytewise: float 4, double 8, long double 10 bytes",
               stack_fill="every call of a case function is preceded by a fill of the 32 KiB below the caller's stack pointer; "
                          "each case runs once with fill byte 0xA5 and once with 0x5A (batch run and replay artefact alike)",
@@ -1590,13 +1820,26 @@ def run(ctx):
                      "\\\\ \\\" \\0 \\t + e-acute + euro sign + U+1F600, three variants} x {exact fit, exact with terminator, shorter; 3 and 5 for an unknown "
                      "bound} x {\"\", u8 (char types), u, U, L} for char/signed char/unsigned char/char16_t/char32_t/wchar_t "
                      "arrays of bound 4, 6, unknown (thorough also 2, 3, 5), plain, braced, designated, as members, 2-D rows, in "
-                     "unions, as flexible array member" % (
+                     "unions, as flexible array member.  Third pass: bytes = every pair (b1, b2) of byte_alphabet_b1 x "
+                     "byte_alphabet_b2 as adjacent elements of char/signed char/unsigned char arrays (bound unknown, 4, 6; "
+                     "members; thorough: rows, union, flexible, nested, packed), as one literal with 3-digit octal escapes, as "
+                     "adjacent literals split after b1 with shortest octal / hex escapes, as brace list and brace-elided list of "
+                     "integer constants; _Bool arrays over {0,1,2,255} x {0,1,'0',255}; struct-expr = expressions of "
+                     "struct/union type (variables of the member's type) for a struct nested 1-3 levels deep as first or later "
+                     "member, in arrays, array members and unions: every spelling with (atoms, designated items) <= (3,0)/(2,1) "
+                     "quick, (4,0)/(3,1) thorough that contains such an expression, at every brace-elision level, automatic "
+                     "storage only; union-bitfield = unions whose first or designated member is a bit-field (value only; "
+                     "the other bits of the storage unit are unspecified)" % (
                          ctx.tier, len(LP), "2" if ctx.tier == "quick" else "9",
                          "(3,2)" if ctx.tier == "quick" else "(4,2) or (3,3)", "(2,1)" if ctx.tier == "quick" else "(2,2) or (3,1)"))
+    if only:
+        ctx.incomplete("C05_FAMILIES=%s: only these families were run (debugging)" % only)
+        return
     if tot["judged"] == 0 or len(flagcount) < 6:
         raise core.HarnessError("vacuous: judged=%d forms=%s" % (tot["judged"], sorted(flagcount)))
     if not incomplete:
-        need = ('string-nul', 'string-escape', 'num:float', 'num:double', 'num:ldouble', 'num:integer', 'to:float', 'to:double',
+        need = ('byte-pair', 'string-oct3', 'string-cat-oct', 'string-cat-hex', 'b1:ctl', 'b1:nul', 'b2:odigit', 'b2:hexletter', 'b2:quote',
+                'struct-expr', 'struct-expr-in-elided-struct', 'struct-expr-in-elided-array', 'string-nul', 'string-escape', 'num:float', 'num:double', 'num:ldouble', 'num:integer', 'to:float', 'to:double',
                 'to:ldouble', 'to:integer')
         if any(not flagcount.get(k) for k in need):
             raise core.HarnessError("vacuous: forms %s never judged" % [k for k in need if not flagcount.get(k)])
